@@ -20,6 +20,7 @@ for _p in (os.path.dirname(_D), _D):
     if _p not in sys.path:
         sys.path.insert(0, _p)
 import o1_common as oc
+import objectives
 
 PROP = "C04"
 RULE = ("random objective (35% plateau/step or constant => many equal values), box, N=1..5, parameters; driven either by "
@@ -140,6 +141,17 @@ def _check_case(case, front):
 def gen(r):
     if r.random() < 0.03:
         return oc.collapse_prone_case(r)
+    if r.random() < 0.03:
+        # objective values that are exact Python ints beyond 2**53 (tick / cost counts): the reported best must be the exactly
+        # smallest evaluated value, also when neighbouring values round to the same double
+        case = oc.gen_case(r, n=r.choice((1, 1, 2)), lim=r.choice([5, 8, 17, 40]))
+        case["spec"] = {"kind": "ticks", "base": r.choice([4 * 10 ** 18, -7 * 10 ** 17, 2 ** 60]), "scale": r.choice([40, 300, 3000]),
+                        "of": objectives.gen_spec_trig(r, case["n"])}
+        for k_ in ("shipped", "bg"):
+            case.pop(k_, None)
+        return case
+    if r.random() < 0.04:
+        return oc.band_case(r, refine=r.random() < 0.3)      # overflowing objective values (F11, F13): the reported best is still an evaluated trial of minimal value
     n = r.choice((1, 1, 2, 2, 3, 4, 5))
     u = r.random()
     spec = None
